@@ -224,6 +224,53 @@ ux_enum!(
 ux_struct!(SV2, SV2Owned, SV2Init, fields { e: EV1, magic: Magic, s: SV1 });
 ux_struct!(AcctV, AcctVOwned, AcctVInit, args [, program_account, program = Program16, discriminant = 0x5EEDu16], fields { ver: Version, e: EV1, tail: RemainingBytes });
 
+// enums whose `#[default_init]` variant sits in every position relative to unit variants (the shape
+// lists the default variant first — a naming of the variants, not the Rust declaration order)
+ux_enum!(
+    ED1, ED1Owned,
+    decl { Empty, #[default_init] Items(List<u8, u8>), Pair(S2) },
+    first { Items = 1 (List<u8, u8>) init ED1InitItems },
+    rest { Empty = 0 init ED1InitEmpty, Pair = 2 (S2) init ED1InitPair }
+);
+ux_enum!(
+    ED2, ED2Owned,
+    decl { #[default_init] Items(List<u8, u16>) = 2, Empty = 5, Other(List<u8, u32>) = 9 },
+    first { Items = 2 (List<u8, u16>) init ED2InitItems },
+    rest { Empty = 5 init ED2InitEmpty, Other = 9 (List<u8, u32>) init ED2InitOther }
+);
+ux_enum!(
+    ED3, ED3Owned,
+    decl { A, B, #[default_init] C(List<PackedValue<u16>, u32>), D(List<u8, u8>) },
+    first { C = 2 (List<PackedValue<u16>, u32>) init ED3InitC },
+    rest { A = 0 init ED3InitA, B = 1 init ED3InitB, D = 3 (List<u8, u8>) init ED3InitD }
+);
+ux_enum!(
+    ED4, ED4Owned,
+    decl { X(List<u8, u8>) = 1, Y = 4, Z(S1x) = 7, #[default_init] W(S2) = 200 },
+    first { W = 200 (S2) init ED4InitW },
+    rest { X = 1 (List<u8, u8>) init ED4InitX, Y = 4 init ED4InitY, Z = 7 (S1x) init ED4InitZ }
+);
+ux_enum!(
+    ED5, ED5Owned,
+    decl { P(List<u8, u16>), #[default_init] Q, R(List<u8, u32>) },
+    first { Q = 1 init ED5InitQ },
+    rest { P = 0 (List<u8, u16>) init ED5InitP, R = 2 (List<u8, u32>) init ED5InitR }
+);
+ux_enum!(
+    ED6, ED6Owned,
+    decl { U0, L16(List<u8, u16>), U1 = 10, #[default_init] L32(List<u8, u32>), S(S1x) },
+    first { L32 = 11 (List<u8, u32>) init ED6InitL32 },
+    rest { U0 = 0 init ED6InitU0, L16 = 1 (List<u8, u16>) init ED6InitL16, U1 = 10 init ED6InitU1, S = 12 (S1x) init ED6InitS }
+);
+ux_enum!(
+    ED7, ED7Owned,
+    decl { First(Version), Gap, #[default_init] Last(Magic) },
+    first { Last = 2 (Magic) init ED7InitLast },
+    rest { First = 0 (Version) init ED7InitFirst, Gap = 1 init ED7InitGap }
+);
+ux_struct!(SD1, SD1Owned, SD1Sized, SD1Init, sized { tag: u8 }, fields { e: ED1, f: ED6, g: ED5 });
+ux_struct!(AcctD, AcctDOwned, AcctDInit, args [, program_account, program = Program32, discriminant = 0x0D15EA5Eu32], fields { e: ED3, d: ED4 });
+
 // generic structs with and without the phantom marker; bool / checked enum first, middle and last
 ux_generic_struct!(GP1, GP1Owned, GP1Sized, args [], sized { first: bool, a: A, last: Color });
 ux_generic_struct!(GN1, GN1Owned, GN1Sized, args [, skip_phantom_generics], sized { first: bool, a: A, last: Color });
@@ -669,7 +716,19 @@ pub fn registry() -> Registry {
         e!("T52", UnsizedList<EV1>),
         e!("T53", UnsizedMap<u8, SV2>),
         e!("T54", List<Magic, u16>),
+        e!("T55", ED1),
+        e!("T56", ED2),
+        e!("T57", ED3),
+        e!("T58", ED4),
+        e!("T59", ED5),
+        e!("T60", ED6),
+        e!("T61", ED7),
+        e!("T62", SD1),
+        e!("T63", UnsizedList<ED3>),
+        e!("T64", UnsizedMap<u8, ED6>),
+        e!("T65", UnsizedList<SD1>),
         ("A06", Box::new(AcctEntry::<AcctV>::new()) as Box<dyn DynType>),
+        ("A07", Box::new(AcctEntry::<AcctD>::new()) as Box<dyn DynType>),
         ("A01", Box::new(AcctEntry::<Acct1>::new()) as Box<dyn DynType>),
         ("A03", Box::new(AcctEntry::<Acct16>::new()) as Box<dyn DynType>),
         ("A04", Box::new(AcctEntry::<Acct32>::new()) as Box<dyn DynType>),
